@@ -69,6 +69,8 @@ KNOWN_PROBES = [
     ('C01-default-in-anonymous-element', 'AUTOMATIC TAGS', 'T ::= SEQUENCE { m SEQUENCE OF SEQUENCE { a INTEGER DEFAULT 5 } }'),
     ('C01-set-constrained-component', 'AUTOMATIC TAGS', 'T ::= SET { v INTEGER (0..255), w BOOLEAN }'),
     ('C01-explicit-tagged-extension-addition', 'EXPLICIT TAGS', 'T ::= SEQUENCE { a INTEGER, ..., v [6] OCTET STRING OPTIONAL }'),
+    ('C01-list-default', 'AUTOMATIC TAGS', 'T ::= SEQUENCE { t SET OF INTEGER DEFAULT {} }\nU ::= SEQUENCE { u SEQUENCE OF INTEGER (0..5) DEFAULT {} }'),
+    ('C01-undefined-value-reference', 'AUTOMATIC TAGS', 'Good ::= INTEGER (0..5)\nun2 Good ::= missing-val'),
 ]
 
 
